@@ -2416,6 +2416,11 @@ class Wallet(object):
             keys_to_add = [public_keys]
             if type(public_keys[0]) is list:
                 keys_to_add = list(zip(*public_keys))
+            # The change chain and address index recorded with the keys are those of the path asked for
+            if 'change' in key_path and key_path.index('change') < len(fullpath):
+                change = int(fullpath[key_path.index('change')].strip("'"))
+            if 'address_index' in key_path and key_path.index('address_index') < len(fullpath):
+                address_index = int(fullpath[key_path.index('address_index')].strip("'"))
             new_ms_keys = []
             for key_n, ms_key_cosigners in enumerate(keys_to_add):
                 new_ms_keys.append(self._new_key_multisig(list(ms_key_cosigners), name, account_id, change, cosigner_id,
